@@ -14,6 +14,7 @@ From TV Require Import Model.Engine Model.EngineToy Proofs.EngineMemo Proofs.Eng
 From Coq Require Import ZArith.
 From TV Require Import Num.Num Num.QNum.
 From TV Require Model.Cache Model.EngineReal Proofs.EngineReal Model.EngineRealToy Model.BlockEngineRun Model.BlockEngineRealRun.
+From TV Require Model.EngineReplayReal Proofs.EngineReplayReal.
 Import ListNotations.
 
 (* a memoised evaluation returns what the cache-free evaluation of the same skeleton returns, keeps every cache entry
@@ -471,7 +472,19 @@ Theorem C01_real_lossy_hit_refuted_on_a_block_tree :
      [0; 0; 0; 1126023168; 1128464384; 1119555584; 1110319104; 0; 0; 0; 0; 0; 0; 1102462976; 1077936128; 1102462976; 1074790400; 0; 0; 0; 0] ++ [1; 0; 1] ++
      [0; 0; 0; 1126023168; 1128464384; 1119555584; 1110319104; 0; 0; 0; 0; 0; 0; 0; 1077936128; 0; 1074790400; 0; 0; 0; 0] ++ [1; 1; 0])%Z.
 Proof. split; vm_compute; reflexivity. Qed.
+(* the TRACED engine the real-cache event-level correspondence runs (Model/EngineReplayReal.v `gmemo_tr`: `gmemo` returning, in addition,
+   the events of the trace hook; notes/REALHIST.md) IS `gmemo`: forgetting the events gives `gmemo`, for every algorithm and every cache
+   behind the interface -- in particular `memo_real`, the engine over the real cache *)
+Theorem C01_real_traced_memo_is_gmemo :
+  forall (S In Out Lay : Type) (mode : In -> RunMode) (is_none : S -> bool) (hidden_out : Out) (zero_lay : Lay)
+         (algo : S -> list S -> In -> Alg In Out Lay) (mcalls : S -> list S -> In -> N)
+         (C : Type) (cget : C -> In -> option Out) (clossy : C -> In -> bool) (cstore : C -> In -> Out -> C) (cclear : C -> C) fuel t i,
+    option_map fst (TV.Model.EngineReplayReal.gmemo_tr S In Out Lay mode is_none hidden_out zero_lay algo mcalls C cget clossy cstore cclear fuel t i)
+    = gmemo S In Out Lay mode is_none hidden_out zero_lay algo mcalls C cget clossy cstore cclear fuel t i.
+Proof. intros. apply TV.Proofs.EngineReplayReal.gmemo_traced_fst. Qed.
+
 Print Assumptions C01_exact_instance_is_memo.
+Print Assumptions C01_real_traced_memo_is_gmemo.
 Print Assumptions C01_real_sound_when_no_lossy_hit.
 Print Assumptions C01_real_equals_exact_when_no_lossy_hit_partial.
 Print Assumptions C01_real_fresh_valid.
